@@ -23,6 +23,7 @@ func init() {
 			ruleC06R5(r)
 			ruleNoSwallowedErrors(r, "R7", 20, true, "/wire")
 			ruleC06R8(r)
+			ruleCtxParamUsed(r, "R9")
 			ruleLockPairingFor(r, le, "R6", "lock pairing in the correlation paths: every function that touches the reply table releases ClientConn.mu on every path (the not-found edge of the router included)", func(fn *ssa.Function) bool {
 				for _, a := range collectAccesses(fn) {
 					if fieldKey(a.Owner, a.Field) == "/wire.ClientConn.replyCh" {
